@@ -165,7 +165,7 @@ def verify_function(contract: Contract, specs=None, variant=None) -> FunctionRep
         if a.kwarg is not None:
             st.vars[a.kwarg.arg] = make_input("dict", a.kwarg.arg, st, ex)
         region_locals = set()
-        if contract.opts.get("start_at_loop") is not None or contract.opts.get("region_for_target") is not None:
+        if contract.opts.get("start_at_loop") is not None or contract.opts.get("region_for_target") is not None or contract.opts.get("region_if") is not None:
             for nme, kind in types.items():
                 if nme not in st.vars:
                     st.vars[nme] = make_input(kind, nme, st, ex)
@@ -242,6 +242,16 @@ def verify_function(contract: Contract, specs=None, variant=None) -> FunctionRep
                     st.assume(ex.eval_clause(cl, params_bound, st, None, {}))
             rep.assumptions.append(f"{contract.qual}: only the `for {tgt} in ...` region is verified (statement contract; the rest of the function is "
                                    f"dropped for this obligation; locals {sorted(types)} are inputs)")
+        elif contract.opts.get("region_if") is not None:
+            # statement contract on one branch of ONE if-statement, found by the text of its test: {"test": "<source of the test>", "part": "body"|"orelse"}
+            rif = contract.opts["region_if"]
+            ifnode = next((s_ for s_ in ast.walk(fn) if isinstance(s_, ast.If) and ast.unparse(s_.test) == rif["test"]), None)
+            if ifnode is None:
+                raise OutOfSubset(f"region_if={rif['test']!r}: no such if-statement")
+            body = list(ifnode.body if rif.get("part", "body") == "body" else ifnode.orelse)
+            ex.region_body_only = True
+            rep.assumptions.append(f"{contract.qual}: only the `{rif.get('part', 'body')}` branch of `if {rif['test']}` is verified (statement contract; the rest of "
+                                   f"the function is dropped for this obligation; locals {sorted(types)} are inputs)")
         elif sal is not None:
             # statement contract (DESIGN §2.5): verify from the k-th loop on; the prelude is dropped and every local the
             # remaining statements read is an input declared in opts['types']
